@@ -441,6 +441,17 @@ class Extractor:
                 body = [st for st in fi.node.body if not (isinstance(st, ast.Expr) and isinstance(st.value, ast.Constant))]
                 if len(body) == 1 and isinstance(body[0], ast.Raise):
                     return RAISE        # a helper whose whole body is `raise ...`: calling it is raising
+                # f(a, large=x) is f(a, x) when `large` is the next positional parameter: one spelling for the comparison
+                a_ = fi.node.args
+                if not a_.vararg and not a_.kwarg and any(x[0] == "kw" for x in args):
+                    params = [x.arg for x in a_.posonlyargs + a_.args]
+                    if fi.cls and params and params[0] in ("self", "cls") and not any(isinstance(d, ast.Name) and d.id == "staticmethod" for d in fi.node.decorator_list) and isinstance(e.func, ast.Attribute):
+                        params = params[1:]
+                    pos = [x for x in args if x[0] != "kw"]
+                    kws = {x[1]: x[2] for x in args if x[0] == "kw"}
+                    while len(pos) < len(params) and params[len(pos)] in kws:
+                        pos.append(kws.pop(params[len(pos)]))
+                    args = pos + [("kw", k, v) for k, v in kws.items()]
             return mk_call(q, tuple(args))
         if isinstance(e.func, ast.Attribute):
             return mk_method(e.func.attr, self.ev(e.func.value, env), tuple(args))
@@ -717,10 +728,27 @@ def mk_bool(k, vals):
                     return ("lit", True)
                 continue
             if not any(x is y or x == y for y in out):
+                # short-circuit context: a later operand is only evaluated when every earlier one was true (and) / false (or)
+                if out and _has_ite(x):
+                    for y in out:
+                        if y[0] in ("var", "method", "call", "cmp", "attr"):
+                            x = assume(x, y, k == "and")
+                    if x[0] == "lit" and isinstance(x[1], bool):
+                        if (k == "and") != x[1]:
+                            return ("lit", x[1])
+                        continue
                 out.append(x)
     if not out:
         return ("lit", k == "and")
     return out[0] if len(out) == 1 else (k, tuple(out))
+
+
+def _has_ite(t, d=0) -> bool:
+    if not isinstance(t, tuple) or d > 12:
+        return False
+    if t and t[0] == "ite":
+        return True
+    return any(_has_ite(x, d + 1) for x in t if isinstance(x, tuple))
 
 
 def mk_not(v):
@@ -775,6 +803,77 @@ def assume(t, c, truth):
             if names and len(names) == len(f[2][1][2]) and names <= DISJOINT_BUILTINS:
                 known_cls[f[2][0]] = names
 
+    # numeric bounds established by comparisons that hold on this branch: x > 1.0 decides x <= 1.0 and 0.0 <= x
+    # (only comparisons known to be TRUE give bounds: a false `x <= c` also holds for NaN, which has no bounds)
+    bounds = {}
+    for f, v in facts:
+        if v and f[0] == "cmp" and f[1] in ("<", "<=", ">", ">=", "==") and f[3][0] == "num" and isinstance(f[3][1], (int, float)) and not isinstance(f[3][1], bool):
+            lo, hi = bounds.get(f[2], ((float("-inf"), False), (float("inf"), False)))
+            c = f[3][1]
+            if f[1] in (">", ">=", "=="):
+                cand = (c, f[1] == ">")
+                if cand[0] > lo[0] or (cand[0] == lo[0] and cand[1]):
+                    lo = cand
+            if f[1] in ("<", "<=", "=="):
+                cand = (c, f[1] == "<")
+                if cand[0] < hi[0] or (cand[0] == hi[0] and cand[1]):
+                    hi = cand
+            bounds[f[2]] = (lo, hi)
+
+    def decided(n):
+        if not bounds or n[0] != "cmp" or n[1] not in ("<", "<=", ">", ">=") or n[2] not in bounds or n[3][0] != "num" or isinstance(n[3][1], bool) or not isinstance(n[3][1], (int, float)):
+            return None
+        (lo, lo_strict), (hi, hi_strict) = bounds[n[2]]
+        c, op = n[3][1], n[1]
+        if op in (">", ">="):
+            if lo > c or (lo == c and (lo_strict or op == ">=")):
+                return True
+            if hi < c or (hi == c and (hi_strict or op == ">")):
+                return False
+        else:
+            if hi < c or (hi == c and (hi_strict or op == "<=")):
+                return True
+            if lo > c or (lo == c and (lo_strict or op == "<")):
+                return False
+        return None
+
+    # integer-valued terms (len(...)): values excluded on this branch (`len(x) == 3` known false)
+    excluded = {}
+    for f, v in facts:
+        if f[0] == "cmp" and f[3][0] == "num" and isinstance(f[3][1], int) and not isinstance(f[3][1], bool) and f[2][0] == "call" and f[2][1] in ("len", "builtins.len"):
+            if (f[1] == "==" and not v) or (f[1] == "!=" and v):
+                excluded.setdefault(f[2], set()).add(f[3][1])
+
+    def empty_int_range(n):
+        """an `and` of comparisons that confines an integer-valued term to a finite range all of whose members are excluded"""
+        if not excluded or n[0] != "and":
+            return False
+        for t in excluded:
+            lo, hi = None, None
+            for p in n[1]:
+                if p[0] == "cmp" and p[2] == t and p[3][0] == "num" and isinstance(p[3][1], int) and not isinstance(p[3][1], bool):
+                    c = p[3][1]
+                    if p[1] == ">=":
+                        lo = c if lo is None else max(lo, c)
+                    elif p[1] == ">":
+                        lo = c + 1 if lo is None else max(lo, c + 1)
+                    elif p[1] == "<=":
+                        hi = c if hi is None else min(hi, c)
+                    elif p[1] == "<":
+                        hi = c - 1 if hi is None else min(hi, c - 1)
+                    elif p[1] == "==":
+                        lo = c if lo is None else max(lo, c)
+                        hi = c if hi is None else min(hi, c)
+            if lo is not None and hi is not None and hi - lo <= 16:
+                left = [k for k in range(lo, hi + 1) if k not in excluded[t]]
+                others = [p for p in n[1] if not (p[0] == "cmp" and p[2] == t and p[3][0] == "num")]
+                if not left:
+                    return True
+                if len(left) == 1 and hi > lo:
+                    eq = ("cmp", "==", t, ("num", left[0]))       # 3 <= len(x) <= 4 where len(x) != 3: len(x) == 4
+                    return eq if not others else mk_bool("and", tuple(go(o) for o in others) + (eq,))
+        return False
+
     def go(n):
         if not isinstance(n, tuple) or not n or not isinstance(n[0], str) or n[0] in ("num", "str", "lit"):
             return n
@@ -787,6 +886,16 @@ def assume(t, c, truth):
                 if n is f or (n[0] == f[0] and n == f):
                     res = ("lit", v)
                     break
+            if res is None:
+                d = decided(n)
+                if d is not None:
+                    res = ("lit", d)
+            if res is None:
+                er = empty_int_range(n)
+                if er is True:
+                    res = ("lit", False)
+                elif er:
+                    res = er
             if res is None and known_cls and n[0] == "call" and n[1] == "isinstance" and len(n[2]) == 2 and n[2][0] in known_cls and n[2][1][0] == "op":
                 asked = {c[1] for c in n[2][1][2] if c[0] == "var"}
                 if len(asked) == len(n[2][1][2]) and asked <= DISJOINT_BUILTINS:
@@ -1235,6 +1344,15 @@ def compare(code, ref, policy: Policy) -> List[Mismatch]:
                     return sum((go(x, y) for x, y in zip(ca[1:], cb[1:])), [])
         if ka == "ite" and kb == "ite":
             direct = sum((go(x, y) for x, y in zip(ca, cb)), [])
+            # c1 ? A : (c2 ? B : R)  and  c2 ? B : (c1 ? A : R)  are the same function when c1 and c2 exclude one another
+            if direct and a in D.term and D.term[a][0] == "ite" and D.term[a][3][0] == "ite":
+                ta = D.term[a]
+                c1, c2 = ta[1], ta[3][1]
+                if assume(c2, c1, True) == ("lit", False) or assume(c1, c2, True) == ("lit", False):
+                    swapped = ("ite", c2, ta[3][2], ("ite", c1, ta[2], ta[3][3]))
+                    alt = go(D.add(swapped), b)
+                    if not alt:
+                        return alt
             if direct and cb[0] in D.term:
                 nt = mk_not(D.term[cb[0]])
                 if nt[0] != "not":
